@@ -39,6 +39,8 @@ class FunctionalInv(LoopRule):
             c.require(f"inv.{phase}", ix.scal_eq(have, want), f"{name} equals its closed form at k={k}", key=f"{self.tag}inv.{phase}.{name}")
 
     def establish(self, it, fr, start):
+        if self.assume_fn is not None:
+            self.assume_fn(it, fr, start)
         self._check(it, fr, start, "establish")
 
     def havoc(self, it, fr, k):
